@@ -2,7 +2,9 @@
    Only statements here; proofs live in coq/proofs/LogEraseP.v, LogSkeletonP.v, LogEncP.v. *)
 From Coq Require Import String.
 From AQ Require Import lib.Base model.LogErase model.LogEnc gen.LogSkeleton
-  proofs.LogEraseP proofs.LogSkeletonP proofs.LogEncP.
+  proofs.LogEraseP proofs.LogSkeletonP proofs.LogEncP
+  model.LogVal proofs.LogValP gen.LogEncoders proofs.LogEncodersP
+  model.LogRec proofs.LogRecP gen.LogRecords proofs.LogRecordsP proofs.LogCoverP.
 
 (* Generic, proved once by induction on programs of the Core/Log language of model/LogErase.v.
    For any callee environment in which (1) the callees accepted inside Log code only touch logger-owned
@@ -108,3 +110,126 @@ Theorem encoders_http3_headers_refuted :
     encode_http3_push_promise_frame 3 [(name, value)] 0 0 = Err UnicodeDecodeError.
 Proof. exact http3_headers_not_total. Qed.
 Print Assumptions encoders_http3_headers_refuted.
+
+(* ======================================================================================================
+   "logging never raises" for ALL encoders, "the qlog document is serialisable as JSON",
+   "one packet record per packet sent and received" *)
+
+(* Generic (model/LogVal.v): a method whose body passes the type checker does not raise on ANY argument vector of
+   its parameter types, and what it returns is a JSON value (None/bool/int/float/str, lists, str-keyed dicts). *)
+Theorem encoder_typing_sound : forall T m args, meth_ok T m = true ->
+  Forall2 (fun t v => vty T t v = true) (map snd (m_params m)) args ->
+  exists v, call T m args = Ok v /\ is_json v = true.
+Proof. exact meth_sound. Qed.
+Print Assumptions encoder_typing_sound.
+
+(* encoders_total_all: EVERY method of logger.py's QuicLoggerTrace (every encode_*, packet_type, encode_time,
+   _encode_http3_headers, log_event, to_dict) and hexdump -- bodies generated from the current source -- on every
+   argument vector of the types of its annotations: no exception, JSON result.  (This pins the lenient header
+   decoder of fix 0c5337e: with a strict .decode("utf8") the type checker rejects _encode_http3_headers.) *)
+Theorem encoders_total_all : forall m, In m enc_methods ->
+  forall vs, Forall2 (fun t v => vty enc_tabs t v = true) (map snd (m_params m)) vs ->
+  exists v, call enc_tabs m vs = Ok v /\ is_json v = true.
+Proof. exact encoders_total_all_l. Qed.
+Print Assumptions encoders_total_all.
+
+(* premise (1) of erasure_noninterference, its "do not raise" half, DISCHARGED for the QuicLoggerTrace callees: every
+   callee `FLogger m` that the skeleton checker accepts inside Log code is one of the generated method bodies, and
+   does not raise on its domain *)
+Theorem flogger_callees_total : forall m, fn_log_ok checked_methods (FLogger m) = true ->
+  exists me, In me enc_methods /\ same_method m me = true /\
+    forall vs, Forall2 (fun t v => vty enc_tabs t v = true) (map snd (m_params me)) vs ->
+      exists v, call enc_tabs me vs = Ok v /\ is_json v = true.
+Proof. exact flogger_callees_total_l. Qed.
+Print Assumptions flogger_callees_total.
+
+(* ... and at every call site (connection.py, recovery.py, packet_builder.py, h3/connection.py), on every argument
+   vector of the types INFERRED for the argument expressions of that site (annotations of logger.py not used) *)
+Theorem encoders_total_at_sites : forall s, In s enc_sites ->
+  exists m, find_meth (s_meth s) enc_methods = Some m /\
+    forall vs, Forall2 (fun t v => vty enc_tabs t v = true) (s_args s) vs ->
+      exists v, call enc_tabs m vs = Ok v /\ is_json v = true.
+Proof. exact encoders_total_at_sites_l. Qed.
+Print Assumptions encoders_total_at_sites.
+
+(* every `data` handed to log_event (33 sites; get_log_data of each congestion controller spliced in) is a JSON
+   value for all values of its leaf expressions of their inferred types, and building it does not raise *)
+Theorem qlog_record_data_json : forall r, In r event_records ->
+  forall vs, Forall2 (fun t v => vty enc_tabs t v = true) (map snd (m_params r)) vs ->
+  exists v, call enc_tabs r vs = Ok v /\ is_json v = true.
+Proof. exact qlog_record_data_json_l. Qed.
+Print Assumptions qlog_record_data_json.
+
+(* log_event on a trace whose events were all built by log_event from JSON data: no exception, JSON record *)
+Theorem log_event_total : forall odcid vp evs m category event data time,
+  forallb byte_okb odcid = true -> is_json vp = true -> reachable_events odcid vp evs ->
+  find_meth "log_event" enc_methods = Some m -> is_json data = true ->
+  exists v, call enc_tabs m [trace_obj odcid evs vp; VStr category; VStr event; data; VFloat time] = Ok v /\ is_json v = true.
+Proof. exact log_event_total_l. Qed.
+Print Assumptions log_event_total.
+
+(* qlog_json_serialisable: to_dict of such a trace does not raise and is a JSON value (what json.dump accepts
+   without a default= hook).  NOT claimed: absence of NaN/Infinity (json_strict; see encode_time_inf in
+   proofs/LogEncodersP.v and docs/C20.md). *)
+Theorem qlog_json_serialisable : forall odcid vp evs m,
+  forallb byte_okb odcid = true -> is_json vp = true -> reachable_events odcid vp evs ->
+  find_meth "to_dict" enc_methods = Some m ->
+  exists doc, call enc_tabs m [trace_obj odcid evs vp] = Ok doc /\ is_json doc = true.
+Proof. exact qlog_json_serialisable_l. Qed.
+Print Assumptions qlog_json_serialisable.
+
+(* Generic (model/LogRec.v): a control skeleton accepted by the checker for a record automaton: for EVERY decision
+   sequence the events of the run are accepted, and the unit is left (end / return / continue / raise) only in a
+   state where that is allowed. *)
+Theorem record_automaton_sound : forall D q0 s, unit_ok D q0 s = true ->
+  forall fuel ds t ds' o, wrun fuel s ds = Some (t, ds', o) ->
+  exists q', dfa_exec D q0 t = Some q' /\ accept D q' (match o with Fall => "end" | Exited k => k end) = true.
+Proof. exact unit_sound. Qed.
+Print Assumptions record_automaton_sound.
+
+(* one_record_per_packet, SEND, frames: in every run of every frame writer of connection.py (skeletons generated;
+   decisions = branches, iterations, whether start_frame raises QuicPacketBuilderStop) frames and frame records
+   alternate with matching kinds: as many `quic_logger_frames.append` as frames written, in the same order *)
+Theorem one_record_per_packet_send_frames : forall name w, In (name, w) writers ->
+  forall fuel ds t ds' o, wrun fuel w ds = Some (t, ds', o) ->
+  (exists q', dfa_exec (writer_dfa frame_enc_pairs) q0 t = Some q' /\ fst q' = 0) /\
+  count "frame" t = count "log" t.
+Proof. exact writer_records_l. Qed.
+Print Assumptions one_record_per_packet_send_frames.
+
+(* SEND, packets: one iteration of datagrams_to_send's loop over the packets builder.flush() returned logs exactly
+   one packet_sent record (carrying packet.quic_logger_frames: pinned by the translator) *)
+Theorem one_record_per_packet_sent : forall fuel ds t ds' o, wrun fuel sent_iteration ds = Some (t, ds', o) ->
+  exists q', dfa_exec sent_dfa q0 t = Some q' /\ fst q' = 3.
+Proof. exact sent_records_l. Qed.
+Print Assumptions one_record_per_packet_sent.
+
+(* SEND, builder: _end_packet appends the packet to the list flush() returns at most once, and the PADDING it adds
+   is recorded before *)
+Theorem one_record_per_packet_end_packet : forall fuel ds t ds' o, wrun fuel end_packet ds = Some (t, ds', o) ->
+  exists q', dfa_exec end_packet_dfa q0 t = Some q' /\ fst q' <> 1.
+Proof. exact end_packet_records_l. Qed.
+Print Assumptions one_record_per_packet_end_packet.
+
+(* RECEIVE: every run of one iteration of receive_datagram's packet loop has exactly one packet record (a
+   packet_dropped with a trigger of the fixed sets, a packet_received, or the VN / Retry handler which logs exactly
+   one itself), never both, and it is a packet_received exactly when decryption succeeded -- also when the
+   reserved-bits check then closes the connection (fix 45f3c9a) *)
+Theorem one_record_per_packet_recv : forall fuel ds t ds' o, wrun fuel recv_iteration ds = Some (t, ds', o) ->
+  (exists q', dfa_exec (packet_dfa pre_triggers fail_triggers) q0 t = Some q' /\ fst q' = 3) /\
+  records t = 1 /\ count "recv" t = count "decrypt_ok" t.
+Proof. exact (fun fuel ds t ds' o H => conj (recv_records_l fuel ds t ds' o H) (recv_counts_l fuel ds t ds' o H)). Qed.
+Print Assumptions one_record_per_packet_recv.
+
+Theorem one_record_per_packet_recv_handlers : forall h, h = vn_handler \/ h = retry_handler ->
+  forall fuel ds t ds' o, wrun fuel h ds = Some (t, ds', o) ->
+  exists q', dfa_exec one_record_dfa q0 t = Some q' /\ fst q' = 3.
+Proof. exact recv_handlers_l. Qed.
+Print Assumptions one_record_per_packet_recv_handlers.
+
+(* RECEIVE, frames: a frame handler appends at most one frame record, exactly one whenever it does not raise *)
+Theorem one_record_per_frame_recv : forall name w, In (name, w) handlers ->
+  forall fuel ds t ds' o, wrun fuel w ds = Some (t, ds', o) ->
+  exists q', dfa_exec handler_dfa q0 t = Some q' /\ (o <> Exited "raise" -> fst q' = 1).
+Proof. exact handler_records_l. Qed.
+Print Assumptions one_record_per_frame_recv.
